@@ -105,7 +105,9 @@ def gen_tree(rnd: random.Random, d: int, idents, values=None):
     if k < 0.45:
         return ("un", rnd.choice("-~"), gen_tree(rnd, d - 1, idents, values))
     op = rnd.choice(list(BIN))
-    return ("bin", op, gen_tree(rnd, d - 1, idents, values), gen_tree(rnd, d - 1, idents, values))
+    # history mode (values given): the count of a left shift is a leaf, so that no evaluation builds a gigabyte-sized integer
+    rd = 0 if (values is not None and op == "<<") else d - 1
+    return ("bin", op, gen_tree(rnd, d - 1, idents, values), gen_tree(rnd, rd, idents, values))
 
 
 def render(rnd, t, need, extra_paren=0.1, spaces=True):
@@ -460,6 +462,13 @@ def run(env) -> Result:
     return res
 
 
+def show(r):
+    """a result for messages and replay files: integers too long to print are abbreviated"""
+    if r and r[0] == "ok" and abs(r[1]) >= 10 ** 60:
+        return ("ok", f"<integer of {r[1].bit_length()} bits, sign {'-' if r[1] < 0 else '+'}, low 64 bits {abs(r[1]) & (2 ** 64 - 1):#x}>")
+    return r
+
+
 def check_history(real, res, meta, ans, findings):
     text, steps, t = meta["text"], meta["steps"], meta["tree"]
     outs = run_history(real, text, steps)
@@ -468,7 +477,7 @@ def check_history(real, res, meta, ans, findings):
     res.feat(f"history:length={len(steps)}")
     fid = classify(meta, findings)
     data = {"kind": "history", "text": text,
-            "history": [{"context": st["ctx"], "constants": st["consts"], "same_object": list(o[0]), "fresh_object": list(o[1]) if o[1] else None}
+            "history": [{"context": st["ctx"], "constants": st["consts"], "same_object": list(show(o[0])), "fresh_object": list(show(o[1])) if o[1] else None}
                         for st, o in zip(steps, outs)],
             "repro": history_repro(text, steps)}
     bad = None
@@ -498,9 +507,9 @@ def check_history(real, res, meta, ans, findings):
             res.feat("history:step-raises")
         if got != fresh:
             bad = (f"step {k} of {len(steps)}: re-evaluating the same Expression object with context {ctx!r} and constants {st['consts']!r} "
-                   f"gives {got}, a fresh object gives {fresh}" + (f" (the parse tree prescribes {want})" if want else ""))
+                   f"gives {show(got)}, a fresh object gives {show(fresh)}" + (f" (the parse tree prescribes {show(want)})" if want else ""))
         elif want is not None and got != want:
-            bad = f"step {k}: evaluation with context {ctx!r} and constants {st['consts']!r} gives {got}, the parse tree prescribes {want}"
+            bad = f"step {k}: evaluation with context {ctx!r} and constants {st['consts']!r} gives {show(got)}, the parse tree prescribes {show(want)}"
         if bad:
             break
     if bad:
@@ -517,8 +526,8 @@ def check_history(real, res, meta, ans, findings):
             if fid:
                 res.known_seen.setdefault(fid, 0)
             else:
-                res.disagreements.append(Case("corr", f"history: model gives {m1},{m2} for the first two steps; implementation gives {r1},{r2}", data))
-    res.sample({"text": text, "history": [[st["ctx"], st["consts"], list(o[0])] for st, o in zip(steps, outs)]}, 9)
+                res.disagreements.append(Case("corr", f"history: model gives {show(m1)},{show(m2)} for the first two steps; implementation gives {show(r1)},{show(r2)}", data))
+    res.sample({"text": text, "history": [[st["ctx"], st["consts"], list(show(o[0]))] for st, o in zip(steps, outs)]}, 9)
 
 
 def replay(body) -> int:
